@@ -36,6 +36,40 @@ ONE={
 "C16-B":("unsync iterator filter uses the write-time check with the tti duration","tti (alone or with ttl), iterate right after the clock advance"),
 "C17-A":("1000-year limit compared in whole seconds","duration strictly between 1000 y and 1000 y + 1 s"),
 "C17-B":("sync `build_with_hasher` swaps ttl and tti","custom hasher + an expiry knob"),
+"C01-A2":("sync `set_valid_after` stores unconditionally (revert of the R2 repair)","two concurrent invalidate_all with a clock advance between them"),
+"C01-B2":("unsync `insert`: oversize rejection moved before the map write","weigher; update of a cached key with weight > max_capacity keeps the stale value"),
+"C02-A2":("`AtomicInstant::set_instant_if_later`: compare under a read lock, store under a second write lock","two threads inside invalidate_all, preemption inside that function (no switch point there): real threads only"),
+"C02-B2":("sync `get` releases the shard lock before the expiry / valid_after checks","update of the key between lookup and check, after a completed invalidate_all: real threads only"),
+"C03-A2":("unsync admission victims keep their write-order node","ttl, bounded, victim evicted by a popular newcomer, victim key re-inserted later, op at the old deadline"),
+"C03-B2":("sync `apply_reads`: last_accessed only refreshed for admitted entries","tti; insert(k) and get(k) both still queued when sync() runs"),
+"C04-A2":("sync stale-op guard compares the shared EntryInfo instead of the entry","two threads update one admitted key, ops queued in reverse order (R1 shape)"),
+"C04-B2":("sync `Inner::sync` snapshots the counters before taking the maintenance lock","public sync() overlapping another maintenance run"),
+"C05-A2":("unsync `get`: `wo || ao` became `&&`","ttl only and > 100 entries expired at once, lookup beyond the first batch"),
+"C05-B2":("sync iterator reads the clock once at `iter()`","iterator held open across the expiry instant"),
+"C06-A2":("sync `get` stamps the hit with a second, later clock reading","the clock must advance between two statements inside one get"),
+"C06-B2":("sync iterator reads the clock once at `iter()`","iterator held open across the idle deadline"),
+"C07-A2":("sync `remove_expired_ao`: `remove(key)` instead of `remove_if(expired)`","maintenance between apply-writes and expiry sweep while another thread does invalidate(k); insert(k)"),
+"C07-B2":("sync `is_expired_entry_wo` rewritten in tuple form: valid_after skipped without ttl","no ttl; get hit and invalidate_all in one tick, then sync"),
+"C08-A2":("sync `remove_expired_wo` pops (drops) the front node of a key that left the map","ttl, expired unpurged entry, invalidate(k) with a maintenance run before its Remove op is applied"),
+"C08-B2":("two sites: `unlink_ao_from_deque` reads instead of takes the node pointer + `apply_reads` loses its is_admitted guard","queued read hit whose entry was evicted before the read is applied"),
+"C09-A2":("sync `invalidate` passes no housekeeper to `schedule_write_op`","~384 invalidations of present keys in a row without any other maintenance trigger"),
+"C09-B2":("sync `evict_lru_entries`: loop counter not advanced on the dirty-entry `continue`","weigher, over capacity, another thread updates the LRU key between apply-writes and the eviction loop"),
+"C10-A2":("sync `handle_admit` drops `set_policy_weight`","fresh key inserted and re-weighed before the first sync, then updated/removed"),
+"C10-B2":("sync `Inner::sync` snapshots the counters before the lock","explicit sync() racing another sync"),
+"C11-A2":("sync stale-op guard fails open when the key is absent from the map","several ops queued on a full cache: insert(x popular), invalidate(a), invalidate(b), insert(a)"),
+"C11-B2":("sync oversize rejection moved ahead of the update branch","update of an admitted key to weight > max_capacity"),
+"C12-A2":("sync `apply_reads`: a read recorded late (older timestamp) no longer moves the entry","reader preempted between clock read and record while another reader of the same key records first"),
+"C12-B2":("sync admission sizes the victim set with the entry's stored weight","new key inserted twice with decreasing weight and no sync between"),
+"C13-A2":("sync `has_enough_capacity` checks the published weighted_size","two or more writes applied by a single sync()"),
+"C13-B2":("sync `admit`: popularity of skipped (invalidated) nodes still added","insert applied between the two halves of invalidate (interleaving)"),
+"C14-A2":("sketch `increment` stops at the first saturated counter","partial collision with a key recorded >= 15 times"),
+"C14-B2":("unsync `get` does not record a found-but-expired entry","> 100 entries expired at once, lookup beyond the first batch"),
+"C15-A2":("sync `contains_key` runs maintenance when >= 64 writes are queued","beyond the periodic window, 64 queued writes, full cache, pending insert of a cold key"),
+"C15-B2":("unsync `contains_key` evicts for capacity before it purges expired entries","weigher + ttl, growing update over capacity, expired non-LRU entry, contains_key first"),
+"C16-A2":("sync `remove_expired_ao`: `remove(key)` instead of `remove_if(expired)`","housekeeper peeks an expired node, another thread updates that key, housekeeper deletes the fresh entry"),
+"C16-B2":("unsync admitted-with-victims path pushes the write-order node only if tti is set","ttl only, full cache, newcomer admitted over a victim"),
+"C17-A2":("unsync `CacheBuilder::weigher` copies ttl into tti","expiry knob called before `.weigher()`"),
+"C17-B2":("`ensure_expirations_or_panic`: `else if` between the two checks","valid ttl together with a tti over 1000 years"),
 }
 rows=[]
 for d in sorted(glob.glob("/verif/seeded/*/meta.json")):
@@ -71,6 +105,44 @@ with replay confirmation; spin budget in the scheduler).
 `C01-B` and `C02-A` are not violations the named property's own engine can
 see (C01 is sequential; C02 does not speak about `invalidate_all`): they are
 caught by C07 (and C01) instead.
+
+Second round (ids ending in `2`; the sub-agents were told which ideas had been
+used and asked for changes needing queued operations, interleavings, batch
+boundaries, collisions, numeric boundaries or cooperating sites). Strengthened
+after misses: `C02-A2`, `C02-B2` (new STRESS workload for C07: invalidators,
+writers and readers on the real clock), `C03-A2` (C03 "loss" oracle: the
+lock-step model of C12/C13 also runs under C03 and reports a live entry that
+disappears in a step where nothing had to leave for capacity), `C05-B2`,
+`C06-B2` (`IterAdvance`: an iteration held open across a clock advance),
+`C07-A2`/`C16-A2` (litmus programs with a stale access-order node; the
+completeness oracle after quiescence also runs under C07), `C09-A2` (bursts of
+invalidations of present keys), `C12-B2`, `C13-A2` (the lock-step model follows
+insert-only windows applied by one `sync()`), `C15-A2` (C15 histories with a
+full write queue). `seeded/C08-*2`'s author also reported a use-after-free on
+the *unchanged* tree; it was reproduced by a new SCHED litmus program and
+repaired (R3, §2).
+
+Not caught, with the reason:
+* `C06-A2` — the change stamps a hit with a clock reading taken a few
+  statements later inside the same `get`. At the granularity of API calls "the
+  clock reading of the get" is any reading between the call's start and end,
+  so no history oracle can distinguish the two; not a violation one can state
+  against the property.
+* `C12-A2` — needs two readers of one key whose reads are recorded in the
+  opposite order of their clock readings. The concurrent clause of C12 ("with
+  respect to the order in which maintenance applied the recorded reads") is
+  only checked in the sequential domain; deciding it under SCHED would need the
+  oracle to re-implement the maintenance pipeline. Recorded as a gap (§7).
+* `C13-B2` — the patch no longer applies after the R3 repair rewrote the lines
+  it touches (not run).
+* `C14-B2` — the statement only promises that a get is recorded *at most* once
+  (the concurrent cache may drop reads); an unrecorded miss does not
+  contradict it, so the check rightly stays silent.
+* `C15-B2` — only manifests when an extra `contains_key` runs while the unsync
+  cache is over capacity, which is exactly the trigger state of the open known
+  finding U4 and is excluded by construction.
+* `C04-B2`, `C10-B2` — reported by C08 (the library's own `debug_assert_eq!`
+  in `sync` fires first), not by C04/C10.
 """
 p="/verif/DESIGN.md"; s=open(p).read()
 if "@@SEEDED@@" in s:
